@@ -50,6 +50,12 @@ def cases(draw, tier):
     async_mode = draw(st.sampled_from(["none", "none", "all", "mixed", "one"]))
     spec = draw(gen.machine_spec(max_states=6, async_mode=async_mode, sends=False, actions=draw(st.booleans()),
                                  providers=draw(st.sampled_from([("machine",), ("machine", "model"), ("machine", "model", "l0")]))))
+    if draw(st.integers(0, 2)) == 0:
+        # selection must not depend on how the transitions were declared (from_.any(), id-less Event objects, a.to(b, c) ...)
+        from .c15 import plan
+
+        bundles = draw(gen.add_bundle(spec))
+        spec["style"] = draw(plan(spec, bundles, any(c["scope"][0] == "state" and c["attach"] != "conv" for c in spec["cbs"])))
     is_async = gen.is_async_spec(spec)
     rtc = True if is_async else draw(st.booleans())
     if is_async and draw(st.integers(0, 19)) == 0:
